@@ -17,7 +17,7 @@ ASSUMPTIONS = [
 NBD = 'nbdime.diffing.notebooks'
 
 
-def run(ctx):
+def _run_base(ctx):
     repo, cg = ctx.repo, ctx.cg
     ctx.rule('R01.1', 'writer/reader op tables agree on the notebook path: every op a notebook differ can emit (by container kind of the builder used) has a non-raising arm in patch/flatten/count', floor=10)
     ctx.rule('R01.2', 'the file interface revives what it serialised: nbdiff dumps the diff object it computed; nbpatch feeds patch_notebook with to_diffentry_dicts(json.load(...)), which recurses into dicts and lists', floor=4)
@@ -169,3 +169,57 @@ def run(ctx):
     for i in sub.instances:
         if i['rule'] == 'R02.1':
             ctx.inst('R01.3', i['where'], i['construct'], i['verdict'] == 'ok', i['why'], None, extra={'at': i.get('at')})
+
+
+def _open_encoding(call):
+    """encoding= of an open()/io.open() call: the constant, or None when the locale default is used."""
+    for k in call.keywords:
+        if k.arg == 'encoding':
+            v = const_val(k.value)
+            return v.lower().replace('-', '') if isinstance(v, str) else '<dynamic>'
+    return None
+
+
+def run(ctx):
+    """R01.5: the diff file is written in an encoding the patch command reads back.
+
+    nbdiff --out writes the JSON diff with `open(output, 'w')` (locale encoding) and json.dump; nbpatch reads it with an
+    explicit utf8 codec.  The two agree for every locale exactly when (a) the writer names the same codec as the reader, or
+    (b) the writer emits ASCII only (json.dump's default ensure_ascii=True), which every ASCII-compatible locale codec and
+    utf8 decode identically."""
+    ctx.rule('R01.5', 'file interface: the codec/escaping nbdiff --out writes the diff with is one nbpatch decodes identically under every locale', floor=1)
+    _run_base(ctx)
+    repo = ctx.repo
+    hd = repo.func('nbdime.nbdiffapp:_handle_diff')
+    mpf = repo.func('nbdime.nbpatchapp:main_patch')
+    w_open = [w for w in walk_no_nested(hd) if isinstance(w, ast.With)]
+    dump = None
+    wenc = '<no open>'
+    for w in w_open:
+        for it in w.items:
+            c = it.context_expr
+            if isinstance(c, ast.Call) and dotted(c.func) in ('open', 'io.open') and len(c.args) >= 2 and 'w' in str(const_val(c.args[1])):
+                ds = [d for d in calls_in(w) if dotted(d.func) in ('json.dump',)]
+                if ds:
+                    dump = ds[0]
+                    wenc = _open_encoding(c)
+    if dump is None:
+        raise AnalysisError('_handle_diff: `with open(output, "w")` + json.dump not found')
+    ascii_only = True
+    for k in dump.keywords:
+        if k.arg == 'ensure_ascii' and const_val(k.value) is not True:
+            ascii_only = False
+    renc = '<no open>'
+    for w in walk_no_nested(mpf):
+        if isinstance(w, ast.With):
+            for it in w.items:
+                c = it.context_expr
+                if isinstance(c, ast.Call) and dotted(c.func) in ('open', 'io.open') and any(dotted(d.func) in ('json.load',) for d in calls_in(w)):
+                    renc = _open_encoding(c)
+    if renc == '<no open>':
+        raise AnalysisError('main_patch: `with open(patch_filename)` + json.load not found')
+    ok = (wenc is not None and wenc == renc) or (ascii_only and renc in ('utf8', 'ascii', None) and wenc in (None, 'utf8', 'ascii'))
+    ctx.inst('R01.5', 'nbdime.nbdiffapp:_handle_diff', 'writer: encoding=%s, ensure_ascii=%s; reader (nbpatch): encoding=%s' % (wenc, ascii_only, renc), ok,
+             'the bytes written decode to the same text in the reader under every locale' if ok else
+             'the diff file is written with the locale codec (%s) and non-ASCII text unescaped, but read back as %s: under a non-UTF-8 locale '
+             'nbdiff --out fails or nbpatch rebuilds different text' % (wenc, renc), dump)
